@@ -110,6 +110,39 @@ def chk_trees(rng, count, depth):
                 fails.append(rec('constraint-trees', 'constraint %r %s %r but the value is %s its denotation' % (
                     t, 'admits' if got else 'rejects', v, 'outside' if got else 'inside'), tree=repr(t), value=repr(v),
                     empty_union=has_empty_union(t)))
+    # operands and candidates beyond the interpreter's decimal-conversion limit (sys.set_int_max_str_digits): deciding must not
+    # depend on being able to print them
+    HUGE = 1 << 20000
+
+    def show(x):
+        if isinstance(x, tuple):
+            return '(%s)' % ', '.join(show(y) for y in x)
+        if not isinstance(x, int) or abs(x) < 10 ** 20:
+            return '%s' % (x,)
+        return '%s2**%d%+d' % ('-' if x < 0 else '', 20000, abs(x) - HUGE)
+    for t in (('or', ('range', 0, HUGE), ('single', (-1,))), ('and', ('range', -HUGE, HUGE), ('range', -5, HUGE + 5)),
+              ('not', ('single', (HUGE,))), ('or', ('single', (HUGE, -HUGE)), ('range', 3, 4)), ('range', HUGE, HUGE + 1)):
+        try:
+            c = build(t)
+        except Exception as e:
+            fails.append(rec('constraint-trees', 'building %s raised %s' % (show(t), type(e).__name__), tree=show(t)))
+            continue
+        for v in (-1, -2, 0, 3, HUGE - 1, HUGE, HUGE + 1, HUGE + 2, -HUGE, -HUGE - 1):
+            n += 1
+            want = denote(t, v)
+            try:
+                c(v)
+                got = True
+            except error.ValueConstraintError:
+                got = False
+            except Exception as e:
+                fails.append(rec('constraint-trees', 'evaluating %s on %s raised %s' % (show(t), show(v), type(e).__name__),
+                                 tree=show(t), empty_union=False))
+                continue
+            if got != want:
+                fails.append(rec('constraint-trees', 'constraint %s %s %s but the value is %s its denotation' % (
+                    show(t), 'admits' if got else 'rejects', show(v), 'outside' if got else 'inside'), tree=show(t),
+                    empty_union=False))
     return fails, n, len(distinct)
 
 
